@@ -6,7 +6,7 @@
    What is modelled
      * email_templates (the 3 x 5 x 4 product), FakeNames.email, FakeNames.user_name,
        FakeNames._already_have + replace_unicode_strings_with_None,
-     * FakeData.__init__: obj_to_func_list's filter, the four-layer name table,
+     * FakeData.__init__: obj_to_func_list's filter, the five-layer name table,
        FakeData._get_fake_data: lookup, NotImplemented test, recording of the result in
        local_vars under the underscore-free lower-case name,
      * a row = a sequence of `fake:` calls sharing one local_vars dictionary.
@@ -164,14 +164,24 @@ Definition safe_addr (e : str) : bool :=
 (* ------------------------------------------------------------------ username *)
 
 (* FakeNames.user_name: [host] = f.hostname(), [uuid] = f.uuid4(),
-   [ff]/[fl] = f.first_name()/f.last_name() (only read in the non-matching branch) *)
-Definition namepart (matching : bool) (lv : lvars) (ff fl uuid : str) : str :=
+   [ff]/[fl] = f.first_name()/f.last_name() (only read in the non-matching branch).
+   The names are cut first — as far as needed to keep UNIQUE_MIN_LEN characters of the uuid —
+   and only then the uuid. *)
+Definition unique_min_len : Z := 16.
+Definition names_of (matching : bool) (lv : lvars) (ff fl : str) : str :=
   match names_for matching lv with
-  | Some (f, l) => f ++ [DOT] ++ l ++ [USCORE] ++ uuid
-  | None => ff ++ [USCORE] ++ fl ++ [USCORE] ++ uuid
+  | Some (f, l) => f ++ [DOT] ++ l
+  | None => ff ++ [USCORE] ++ fl
   end.
+Definition namepart_max_len (host : str) : Z := Z.max (80 - (Z.of_nat (length host) + 1)) 0.
+Definition kept_names (matching : bool) (lv : lvars) (host ff fl : str) : str :=
+  slice0 (names_of matching lv ff fl) (Z.max (namepart_max_len host - (unique_min_len + 1)) 0).
+(* f"{names}_{unique}" if names else unique *)
+Definition join_unique (names uuid : str) : str :=
+  match names with [] => uuid | _ => names ++ [USCORE] ++ uuid end.
 Definition user_name_of (matching : bool) (lv : lvars) (host ff fl uuid : str) : str :=
-  slice0 (namepart matching lv ff fl uuid) (80 - (Z.of_nat (length host) + 1)) ++ [AT] ++ host.
+  slice0 (join_unique (kept_names matching lv host ff fl) uuid) (namepart_max_len host)
+  ++ [AT] ++ host.
 
 (* ------------------------------------------------------------------ the name table *)
 
@@ -210,10 +220,18 @@ Definition attrs_of (dir ignore : list string) : list string :=
 Definition layer (s : src) (cf : string -> string) (attrs : list string) : list (string * prov) :=
   map (fun n => (cf n, (s, n))) attrs.
 
-(* {**L1, **L2, **L3, **L4}: a later writer of a key wins, so the association list is
+(* the fifth entry of the dict display: every Faker name (lower case) whose canonical form is
+   the canonical form of a Snowfakery name is bound to what that canonical key is bound to *)
+Definition layer5 (fa sa : list string) : list (string * prov) :=
+  flat_map (fun n => match assoc (canon n) (rev (layer Sf canon sa)) with
+                     | Some p => [(lower n, p)]
+                     | None => []
+                     end) fa.
+
+(* {**L1, **L2, **L3, **L4, **L5}: a later writer of a key wins, so the association list is
    searched from the last layer's last name backwards *)
 Definition build (fa sa : list string) : list (string * prov) :=
-  rev (layer Sf canon sa) ++ rev (layer Sf lower sa)
+  rev (layer5 fa sa) ++ rev (layer Sf canon sa) ++ rev (layer Sf lower sa)
   ++ rev (layer Fk canon fa) ++ rev (layer Fk lower fa).
 
 (* self.fake_names.get(origname.lower()) *)
@@ -235,11 +253,6 @@ Section Consistency.
     forallb (fun p1 => forallb (fun p2 =>
       negb (String.eqb (fst p1) (fst p2)) || veqb (snd p1) (snd p2)) l) l.
 End Consistency.
-Definition sf_keys (sa : list string) : list string := map lower sa ++ map canon sa.
-(* a Faker name with the canonical form of a Snowfakery name is shadowed in both spellings *)
-Definition coveredb (fa sa : list string) : bool :=
-  forallb (fun nf => negb (mem (canon nf) (map canon sa)) || mem (lower nf) (sf_keys sa)) fa.
-
 (* ------------------------------------------------------------------ one row *)
 
 Record st := mkSt {
@@ -355,8 +368,7 @@ Definition check_query (tbl : list (string * prov)) (ni : list string)
 
 Definition hyps_hold (fa sa : list string) (sigs : list (string * string)) : bool :=
   consistentb String.eqb (fun p => sig_of sigs (Some p)) Fk fa
-  && consistentb String.eqb (fun p => sig_of sigs (Some p)) Sf sa
-  && coveredb fa sa.
+  && consistentb String.eqb (fun p => sig_of sigs (Some p)) Sf sa.
 
 Inductive case :=
 | CLocale (fk_dir ignore sf_dir ni : list string) (sigs : list (string * string))
